@@ -35,10 +35,11 @@ type spec struct {
 	sameIP   bool   // all clients share one IP address and differ only in the source port
 	oversize bool   // each reply is preceded by a datagram the downlink must skip (too large for the client)
 	client   string // outgoing client of the relay: direct (real targets), none or ss2022 (harness upstream proxy)
+	wild     bool   // wildcard listener; session i talks to it through local address 127.A.B.(1+i%2)
 }
 
 func (s spec) String() string {
-	return fmt.Sprintf("server=%s;batch=%s;targets=%s;n=%d;per=%d;garbage=%v;rebind=%v;sameip=%v;oversize=%v;client=%s", s.server, s.batch, s.targets, s.n, s.per, s.garbage, s.rebind, s.sameIP, s.oversize, s.client)
+	return fmt.Sprintf("server=%s;batch=%s;targets=%s;n=%d;per=%d;garbage=%v;rebind=%v;sameip=%v;oversize=%v;client=%s%s", s.server, s.batch, s.targets, s.n, s.per, s.garbage, s.rebind, s.sameIP, s.oversize, s.client, map[bool]string{true: ";wild=true"}[s.wild])
 }
 
 func parse(p string) spec {
@@ -64,6 +65,8 @@ func parse(p string) spec {
 			s.sameIP = v == "true"
 		case "oversize":
 			s.oversize = v == "true"
+		case "wild":
+			s.wild = v == "true"
 		case "client":
 			s.client = v
 		}
@@ -97,7 +100,7 @@ func scenario(param string) vsched.Scenario {
 		)
 		body := func() {
 			var err error
-			env, err = udpenv.New(udpenv.Spec{Server: sp.server, Batch: sp.batch, Client: sp.client})
+			env, err = udpenv.New(udpenv.Spec{Server: sp.server, Batch: sp.batch, Client: sp.client, Wildcard: sp.wild})
 			if err != nil {
 				buildErr = err
 				return
@@ -160,6 +163,10 @@ func scenario(param string) vsched.Scenario {
 				wantTargetStr[i] = target.String()
 				cg.Go(func() {
 					c := env.NewClient(i, 0)
+					if sp.wild {
+						c.Close()
+						c = env.NewClientVia(i, byte(1+i%2))
+					}
 					if sp.sameIP {
 						c.Close()
 						c = env.NewClientAt(i, 10, uint16(10+i))
@@ -385,26 +392,28 @@ func family(c *harness.Check) []string {
 				tk = []string{"ip"}
 			}
 			for _, t := range tk {
-				out = append(out, spec{sv, b, t, 2, 1, false, false, false, false, "direct"}.String())
+				out = append(out, spec{sv, b, t, 2, 1, false, false, false, false, "direct", false}.String())
 				if c.Thorough() || t == "domain" {
-					out = append(out, spec{sv, b, t, 2, 2, false, false, false, false, "direct"}.String())
-					out = append(out, spec{sv, b, t, 3, 1, false, false, false, false, "direct"}.String())
+					out = append(out, spec{sv, b, t, 2, 2, false, false, false, false, "direct", false}.String())
+					out = append(out, spec{sv, b, t, 3, 1, false, false, false, false, "direct", false}.String())
 				}
 			}
 			if sv != "direct" {
 				// a tunnel server has no framing: every datagram is a valid payload for the fixed target
-				out = append(out, spec{sv, b, "ip", 1, 2, true, false, false, false, "direct"}.String())
+				out = append(out, spec{sv, b, "ip", 1, 2, true, false, false, false, "direct", false}.String())
 				// a datagram the downlink must skip arrives right before each genuine reply (same receive batch)
-				out = append(out, spec{sv, b, "ip", 1, 2, false, false, false, true, "direct"}.String())
+				out = append(out, spec{sv, b, "ip", 1, 2, false, false, false, true, "direct", false}.String())
 				// a resolvable domain first, then datagrams to a name whose lookup fails
-				out = append(out, spec{sv, b, "domainfail", 1, 3, false, false, false, false, "direct"}.String())
-				out = append(out, spec{sv, b, "domainfail", 2, 2, false, false, false, false, "direct"}.String())
+				out = append(out, spec{sv, b, "domainfail", 1, 3, false, false, false, false, "direct", false}.String())
+				out = append(out, spec{sv, b, "domainfail", 2, 2, false, false, false, false, "direct", false}.String())
 				// two clients behind one IP address (a NAT): sessions must be told apart by port
-				out = append(out, spec{sv, b, "ip", 2, 2, false, false, true, false, "direct"}.String())
+				out = append(out, spec{sv, b, "ip", 2, 2, false, false, true, false, "direct", false}.String())
 			}
+			// a wildcard listener reached through two local addresses: each session's replies leave from its own
+			out = append(out, spec{sv, b, "ip", 2, 2, false, false, false, false, "direct", true}.String())
 			if sv == "ss2022" {
-				out = append(out, spec{sv, b, "ip", 1, 2, false, true, false, false, "direct"}.String())
-				out = append(out, spec{sv, b, "mixed", 2, 2, false, true, false, false, "direct"}.String())
+				out = append(out, spec{sv, b, "ip", 1, 2, false, true, false, false, "direct", false}.String())
+				out = append(out, spec{sv, b, "mixed", 2, 2, false, true, false, false, "direct", false}.String())
 			}
 		}
 	}
@@ -416,9 +425,9 @@ func family(c *harness.Check) []string {
 					continue
 				}
 				for _, t := range []string{"ip", "domain"} {
-					out = append(out, spec{sv, b, t, 2, 1, false, false, false, false, cl}.String())
+					out = append(out, spec{sv, b, t, 2, 1, false, false, false, false, cl, false}.String())
 				}
-				out = append(out, spec{sv, b, "mixed", 2, 2, false, false, false, false, cl}.String())
+				out = append(out, spec{sv, b, "mixed", 2, 2, false, false, false, false, cl, false}.String())
 			}
 		}
 	}
